@@ -188,6 +188,32 @@ pub fn script_template(version: u8, outputs: usize) -> Template {
     Template { src, tx: "t".into() }
 }
 
+/// C08 from the source: one expression written as the redeemer of an input block, of a mint block and of a
+/// withdrawal: the three redeemers of the compiled transaction must carry the same data (what a redeemer means does not
+/// depend on the kind of block it is written in).
+pub fn run_c08_lang(_opts: &Opts, out: &mut Emitter) {
+    let exprs = ["()", "7", "quantity", "quantity + 1", "Guard", "R { a: quantity, b: 0xab, }", "R { b: 0xab, a: 1, }", "true", "0xc0ffee",
+                 "[1, 2]", "[Guard, 0xab]", "\"txt\"", "V::B {}", "V::A { x: quantity, }"];
+    for e in exprs {
+        for mainnet in [false, true] {
+            let src = format!(
+                "party Sender;\nparty Receiver;\nparty Staker;\npolicy Guard = 0x6b9c456aa650cb808a9ab54326e039d5235ed69f069c9664a8fe5b69;\ntype R {{\n    a: Int,\n    b: Bytes,\n}}\ntype V {{\n    A {{ x: Int, }},\n    B,\n}}\n\ntx t(quantity: Int) {{\n    input source {{\n        from: Sender,\n        min_amount: fees + Ada(quantity),\n        redeemer: {e},\n    }}\n    collateral {{\n        from: Sender,\n        min_amount: fees,\n    }}\n    mint {{\n        amount: AnyAsset(0xbd3ae991b5aafccafe5ca70758bd36a9b2f872f57f6d3a1ffa0eb777, \"ABC\", 1),\n        redeemer: {e},\n    }}\n    cardano::withdrawal {{\n        from: Staker,\n        amount: 0,\n        redeemer: {e},\n    }}\n    output {{\n        to: Receiver,\n        amount: source + AnyAsset(0xbd3ae991b5aafccafe5ca70758bd36a9b2f872f57f6d3a1ffa0eb777, \"ABC\", 1) - fees,\n    }}\n    cardano::plutus_witness {{\n        version: 2,\n        script: 0x5101010023259800a518a4d136564004ae69,\n    }}\n}}\n"
+            );
+            let t = Template { src: src.clone(), tx: "t".into() };
+            out.case("lang-redeemers", || {
+                let Some(tx) = lower(&t) else { return json!({"probe": "lang-redeemers", "expr": e, "src": src, "obs": {"class": "front-end"}}) };
+                let mut args = args_for(2_000_000);
+                let mut staker = vec![if mainnet { 0xe1u8 } else { 0xe0 }];
+                staker.extend([0xcc; 28]);
+                args.insert("staker".into(), ArgValue::Address(staker));
+                let mut c = Tracing::new(store::compiler(store::pparams(mainnet, 44, 155_381, 4310, true), Some(0)));
+                let res = resolve_outcome(&mut c, &tx, &args, &store_with(&[60_000_000, 7_000_000]), 3);
+                json!({"probe": "lang-redeemers", "expr": e, "mainnet": mainnet, "src": src, "obs": res})
+            });
+        }
+    }
+}
+
 pub fn args_for(q: i128) -> BTreeMap<String, ArgValue> {
     BTreeMap::from([
         ("sender".to_string(), ArgValue::Address(ADDR_A.to_vec())),
